@@ -268,7 +268,9 @@ class ProcessManager:
                 elif isinstance(action, ShutdownAction):
                     logger.debug("Process manager closed, killing workers.")
                     for worker in self.workers:
-                        if worker.pid:
+                        # Dead workers may be already reaped, so their
+                        # pids don't belong to us anymore.
+                        if worker.pid and worker.is_alive():
                             os.kill(worker.pid, signal.SIGINT)
                     return None
 
